@@ -64,7 +64,14 @@ def cel_panics(res):
              ("int", "-value < 3 && !(value % 2 == 0)"), ("int8", "value * value >= 0"), ("int", "value - (this.A - 3) != 0 && 7 / (value - (this.A - 3)) >= 0"),
              # a pattern that is only known at run time (D35): the companion S takes invalid patterns
              ("string", "value.matches(this.S)"), ("string", "matches(this.S, value)"), ("string", "value.matches(this.S + '$') || value == ''"),
-             ("[]string", "value.all(s, s.matches(this.S))"), ("string", "this.S.matches(value)")]
+             ("[]string", "value.all(s, s.matches(this.S))"), ("string", "this.S.matches(value)"),
+             # constant patterns that do not compile, at every depth (the generator refuses them: a regexp.MustCompile on such a
+             # literal would panic on the first evaluation)
+             ("string", "value.matches('[')"), ("string", "value == '' || value.matches('*a')"), ("string", "!(value != 'x' && matches(value, '(?P<n'))"),
+             ("[]string", "value.all(item, item.matches('^[a-z+$'))"), ("[]string", "value.exists(s, s.matches('('))"),
+             ("[]string", "size(value.filter(s, s.matches('a{2,1}'))) == 0"), ("[]string", "value.exists_one(s, s.matches('\\\\'))"),
+             ("[]string", "size(value.map(s, s.matches('['))) >= 0"), ("map[string]int", "value.all(k, k.matches('[z-a]'))"),
+             ("[]string", "value.all(a, this.Tags.exists(b, b.matches(')') || a == b))"), ("[]string", "value.all(s, s.matches('^a$') || s.matches('[[:nope:]]'))")]
     rng = random.Random(res.seed)
     scen = [celgen.scenario_for("c17cel%d" % i, vt, e, rng, 60) for i, (vt, e) in enumerate(exprs)]
     d = os.path.join(scratch(), "c17cel")
